@@ -711,6 +711,11 @@ class Interp:
             if isinstance(a, K) and isinstance(b, K):
                 r = a.v is b.v or (a.v == b.v and type(a.v) is type(b.v) and isinstance(a.v, (int, str, bytes)))
                 return K(r if t is ast.Is else not r)
+            for x, y in ((a, b), (b, a)):
+                if isinstance(x, K) and type(x.v) is object:
+                    # a private sentinel `object()`: nothing but that very object is identical to it
+                    same_obj = isinstance(y, K) and y.v is x.v
+                    return K(same_obj if t is ast.Is else not same_obj)
             none_side = b if isinstance(b, K) and b.v is None else a if isinstance(a, K) and a.v is None else None
             other = a if none_side is b else b
             if none_side is not None:
@@ -1181,6 +1186,18 @@ class Interp:
                     d.keyobj[k] = K(k)
                 return d
         for c in self.prog.mro(cls):
+            late = getattr(self.prog.modules.get(c.module), 'late_attrs', {})
+            if (c.name, a) in late or ((c.qual, a) in self.__dict__.get('_class_vals', {}) and a not in c.class_attrs):
+                # rebound after the class body (module-level `Class.attr = ...`, or an assignment made by interpreted code): that value wins
+                cache = self.__dict__.setdefault('_class_vals', {})
+                if (c.qual, a) not in cache:
+                    cache[(c.qual, a)] = self.ev(late[(c.name, a)], Frame(c.module))
+                v = cache[(c.qual, a)]
+                if isinstance(v, FuncRef) and inst is not None and not isinstance(v.node, ast.Lambda) and 'staticmethod' not in v.decorators():
+                    return Bound(inst, v)
+                if isinstance(v, FuncRef) and isinstance(v.node, ast.Lambda) and inst is not None:
+                    return Bound(inst, v)
+                return v
             if a in c.methods:
                 fn = c.methods[a]
                 f = FuncRef(fn, c.module, c)
